@@ -1,6 +1,11 @@
 package keyset
 
 import (
+	"context"
+	"errors"
+
+	"google.golang.org/protobuf/proto"
+
 	"github.com/tink-crypto/tink-go/v2/internal/protoserialization"
 	"github.com/tink-crypto/tink-go/v2/internal/verifrt"
 	"github.com/tink-crypto/tink-go/v2/key"
@@ -50,6 +55,118 @@ func VerifH_keyset_proto_roundtrip() {
 		a, b := h.entries[i], back[i]
 		verifrt.Assert(a.keyID == b.keyID && a.status == b.status && a.isPrimary == b.isPrimary, "entry id / status / primary preserved, in order")
 		verifrt.Assert(a.key.Equal(b.key), "key Equal after the round trip")
+	}
+	verifrt.Reach("end")
+}
+
+// ---- encrypted keysets
+
+// idealKEK is an ideal key-encryption AEAD: Decrypt accepts exactly the (ciphertext,
+// associated data) pairs that Encrypt of the SAME key produced; ciphertext = tag || plaintext
+// so that the (modelled) protobuf bytes survive.
+type idealKEK struct {
+	id  byte
+	log *[]kekRec
+}
+
+type kekRec struct {
+	id     byte
+	ad, ct []byte
+}
+
+func (k idealKEK) Encrypt(pt, ad []byte) ([]byte, error) {
+	ct := append([]byte{0xE0, k.id, byte(len(*k.log))}, pt...)
+	*k.log = append(*k.log, kekRec{k.id, append([]byte{}, ad...), append([]byte{}, ct...)})
+	return ct, nil
+}
+
+func (k idealKEK) Decrypt(ct, ad []byte) ([]byte, error) {
+	for _, r := range *k.log {
+		if r.id == k.id && verifrt.EqBytes(r.ct, ct) && verifrt.EqBytes(r.ad, ad) {
+			return append([]byte{}, ct[3:]...), nil
+		}
+	}
+	return nil, errKEK
+}
+
+func (k idealKEK) EncryptWithContext(_ context.Context, pt, ad []byte) ([]byte, error) {
+	return k.Encrypt(pt, ad)
+}
+func (k idealKEK) DecryptWithContext(_ context.Context, ct, ad []byte) ([]byte, error) {
+	return k.Decrypt(ct, ad)
+}
+
+var errKEK = errors.New("ideal kek: decryption failed")
+
+// An encrypted keyset written with (key-encryption key, associated data) reads back - only
+// with the same key and the same associated data - as a handle with the same keys, ids,
+// statuses, primary and order; the cleartext part of the written form is metadata only
+// (type URL, status, id, prefix type per key, primary id). Both API generations.
+func VerifH_keyset_encrypted_io() {
+	verifrt.NativeSkip("key (de)serialization is summarised")
+	stubKeySerialization()
+	n := 1 + verifrt.Choice("n", 2)
+	m := arbitraryManager(n)
+	h, err := m.Handle()
+	if err != nil {
+		verifrt.Reach("noprimary")
+		return
+	}
+	var log []kekRec
+	kek, other := idealKEK{1, &log}, idealKEK{2, &log}
+	ad := verifrt.Bytes("ad", verifrt.Choice("adn", 2))
+	mem := &MemReaderWriter{}
+	ctxAPI := verifrt.Choice("api", 2) == 1
+	if ctxAPI {
+		err = h.WriteWithContext(context.Background(), mem, kek, ad)
+	} else {
+		err = h.WriteWithAssociatedData(mem, kek, ad)
+	}
+	verifrt.Assert(err == nil, "writing the encrypted keyset succeeds")
+	verifrt.Assert(mem.Keyset == nil && mem.EncryptedKeyset != nil, "only the encrypted form is written")
+	// the cleartext metadata
+	info := mem.EncryptedKeyset.GetKeysetInfo()
+	verifrt.Assert(len(info.GetKeyInfo()) == n, "one KeyInfo per key")
+	for i, e := range h.entries {
+		ki := info.GetKeyInfo()[i]
+		verifrt.Assert(ki.GetKeyId() == e.keyID && ki.GetStatus() == tinkpb.KeyStatusType(e.status) && ki.GetTypeUrl() == "type.googleapis.com/stub", "KeyInfo mirrors id, status and type URL")
+		sk := e.key.(*stubKey)
+		wantPT := tinkpb.OutputPrefixType_RAW
+		if sk.req {
+			wantPT = tinkpb.OutputPrefixType_TINK
+		}
+		verifrt.Assert(ki.GetOutputPrefixType() == wantPT, "KeyInfo mirrors the prefix type")
+		verifrt.Assert(verifrt.Implies(e.isPrimary, info.GetPrimaryKeyId() == e.keyID), "KeysetInfo names the primary")
+	}
+	// what was encrypted is the serialized keyset, under the given associated data
+	verifrt.Assert(len(log) == 1 && verifrt.EqBytes(log[0].ad, ad), "exactly one encryption, with the caller's associated data")
+	ks, _ := entriesToProtoKeyset(h.entries, false)
+	want, _ := proto.Marshal(ks)
+	verifrt.AssertEq(log[0].ct[3:], want, "the encrypted payload is the serialized keyset")
+
+	read := func(k idealKEK, a []byte) (*Handle, error) {
+		if ctxAPI {
+			return ReadWithContext(context.Background(), mem, k, a)
+		}
+		return ReadWithAssociatedData(mem, k, a)
+	}
+	switch verifrt.Choice("case", 3) {
+	case 0:
+		back, err := read(kek, ad)
+		verifrt.Assert(err == nil, "reading with the same key and associated data succeeds")
+		verifrt.Assert(back.Len() == n, "same number of keys")
+		for i := 0; i < n && i < back.Len(); i++ {
+			a, b := h.entries[i], back.entries[i]
+			verifrt.Assert(a.keyID == b.keyID && a.status == b.status && a.isPrimary == b.isPrimary && a.key.Equal(b.key), "same key, id, status and primary, in order")
+		}
+	case 1:
+		ad2 := verifrt.Bytes("ad2", verifrt.Choice("ad2n", 2))
+		verifrt.Assume(!verifrt.EqBytes(ad2, ad))
+		_, err := read(kek, ad2)
+		verifrt.Assert(err != nil, "other associated data: rejected")
+	default:
+		_, err := read(other, ad)
+		verifrt.Assert(err != nil, "another key-encryption key: rejected")
 	}
 	verifrt.Reach("end")
 }
